@@ -332,6 +332,25 @@ def check_tree(ctx, tr, rng, k, quick):
                         ctx.disagree('after kill() in a validation hook that then raises, further entries are still processed',
                                      dict(wit, killed_and_raised_at=w2.raised_file, later_events=later[:6]))
                 w2.reset()
+                if kind == 'vfile':
+                    # kill() from the validation hook that raises, or from the on_error call that follows: the file being
+                    # processed is still routed to on_skip (exactly once) and counted
+                    for kill_offset in (0, 1):
+                        w3 = fresh(root, pat, excl, flags)
+                        begin(w3)
+                        w3.raise_at, w3.raise_in, w3.kill_at = kpt, kind, kpt + kill_offset
+                        try:
+                            list(w3.imatch())
+                        except Boom:
+                            pass
+                        ctx.count('raising_hook_runs')
+                        if hasattr(w3, 'raised_kind') and getattr(w3, 'kill_file', None) == w3.raised_file:
+                            routed3 = [e for e in w3.log if e[1] == w3.raised_file and e[0] in ('match', 'skip')]
+                            if routed3 != [('skip', w3.raised_file)]:
+                                ctx.disagree('a file whose validation raised while the walk was being killed is not routed to on_skip exactly once',
+                                             dict(wit, killed_in='on_validate_file' if kill_offset == 0 else 'on_error', routed=routed3,
+                                                  hooks=[e[0] for e in w3.log if e[1] == w3.raised_file]))
+                        w3.reset()
             # whatever happened, the object can be re-run completely
             begin(w)
             if w.is_aborted():
@@ -467,6 +486,7 @@ def sequences(ctx, tr, maxlen):
             aborted = False
             pending = []
             runs_done = 0
+            model_sk = 0          # what get_skipped() must report (None: a partly consumed run, not modelled)
             ctx.evals()
             ctx.count('call_sequences')
             for si, op in enumerate(seq):
@@ -506,6 +526,15 @@ def sequences(ctx, tr, maxlen):
                     ok = True
                 else:
                     ok = w.is_aborted() is aborted
+                # the skipped count belongs to the last run: kill(), reset(), is_aborted() and creating an iterator leave it alone
+                if op in ('match', 'imatch', 'consume'):
+                    model_sk = 0 if was_aborted else skipped
+                elif op == 'abandon':
+                    model_sk = None if not was_aborted else 0
+                if ok and model_sk is not None and w.get_skipped() != model_sk:
+                    ctx.disagree('get_skipped() changes without a run (or does not report the last run)',
+                                 {'tree': tr.spec, 'sequence': list(seq), 'failing_step': si, 'reported': w.get_skipped(), 'last_run': model_sk})
+                    break
                 if ok and was_aborted and op in ('match', 'imatch', 'consume', 'abandon'):
                     # a run started on an aborted object looks at nothing: no file or directory reaches a hook
                     touched = [e for e in w.log[n0:] if e[0] != 'reset']
